@@ -33,6 +33,8 @@ func checks() map[string]CheckDef {
 			{Pkg: "internal/zzverif/c20", Func: "HarnessNoDbSection", Labels: []string{"C20/missing-database-section-refused"}},
 			{Pkg: "internal/zzverif/c20", Func: "HarnessPrecedence", Quick: [][]int64{{0}, {1}, {2}, {3}}, Witness: 200,
 				Labels: []string{"C20/leaf-keys-enumerated", "C20/set-defaults-succeeds", "C20/load-succeeds", "C20/environment-over-file-over-default", "C20/keys-not-overridden-keep-their-defaults"}},
+			{Pkg: "internal/zzverif/c20", Func: "HarnessKeyAndFixedKey", Quick: [][]int64{{1, 2}, {2, 1}}, Witness: 200,
+				Labels: []string{"C20/set-defaults-succeeds", "C20/load-succeeds", "C20/environment-over-file-over-default", "C20/keys-not-overridden-keep-their-defaults"}},
 			{Pkg: "internal/zzverif/c20", Func: "HarnessTwoKeys", Thorough: [][]int64{{1, 1}, {1, 2}, {3, 1}}, Witness: 200,
 				Labels: []string{"C20/set-defaults-succeeds", "C20/load-succeeds", "C20/environment-over-file-over-default", "C20/keys-not-overridden-keep-their-defaults"}},
 		},
@@ -76,6 +78,8 @@ func checks() map[string]CheckDef {
 			{Pkg: "transports/http/endpoints/api/tips", Func: "HarnessMapTip", Quick: [][]int64{{2}}, Thorough: [][]int64{{3}}, Labels: []string{"C04/tip-response-carries-the-stored-fields", "C04/tips-response-keeps-length-and-order"}},
 			{Pkg: "transports/http/endpoints/api/headers", Func: "HarnessByHeightRoute", Quick: [][]int64{{2}}, Thorough: [][]int64{{3}},
 				Labels: []string{"C04/by-height-route-answers-with-the-window"}},
+			{Pkg: "transports/http/endpoints/api/headers", Func: "HarnessHashRoutes", Quick: [][]int64{{2}}, Thorough: [][]int64{{3}},
+				Labels: []string{"C04/hash-routes-answer-with-the-service-result"}},
 		},
 		Bounds:  []string{"arbitrary INV-H store of k rows (quick k<=4, thorough k<=5), every column symbolic; query hash an arbitrary string (by-hash/state) or any ordered pair of distinct stored headers (ancestors); by-height: any height and count with |.| < 2^40; common-ancestor: every list of n stored-or-unknown hashes (quick k<=4 n<=2; thorough k=3 n=3, k=5 n<=3, and the two-branch shape of 5 rows with n=3), on stores without a parent stored after its child", "no state outside the store: for each of the 9 routes under /api/v1/chain (enumerated from the routing table; auth off) one arbitrary request, then one arbitrary new header ingested through the same process, then the same request again - its answer (status and documents) equals that of a freshly assembled application over the same database; k=1 for every route and k=2 for header by hash, header state, the merkle-root listing and tips (quick), k=2 for every route and k=3 for those two (thorough)"},
 		Outside: []string{"JSON encoding of the response structs (field names / tags); the struct-level mapping is checked for every header with a timestamp within uint32 seconds", "PostgreSQL", "tips: the row order of the UNION is unspecified, the result is compared as a set"},
